@@ -376,7 +376,7 @@ var KnownPkgs = []struct{ Qual, Alias, Path string }{
 	{"hooks", "", ModulePath + "/hooks"},
 	{"hooksv2", "hooksv2", ModulePath + "/hooks/v2"},
 	{"e", "e", ModulePath + "/enums"},
-	{"dotfn", "", ModulePath + "/dotfn"}, // dot-imported by setup files that name DotIntToStr / DotFinalize in a notation
+	{"dotfn", "", ModulePath + "/dotfn"},      // dot-imported by setup files that name DotIntToStr / DotFinalize in a notation
 	{"audit", "", ModulePath + "/deep/audit"}, // never imported by generated setup files; the behavioural driver names its types
 }
 
